@@ -1,0 +1,15 @@
+//go:build !verif
+
+// Package verifhook holds the simulation seams used by the deterministic
+// simulation harness. With the "verif" build tag off (the default) every
+// function in this package is an empty, inlinable no-op.
+package verifhook
+
+// Enabled reports whether the hooks are compiled in.
+const Enabled = false
+
+// Point is a cooperative scheduling point (no-op in normal builds).
+func Point(site string, arg interface{}) {}
+
+// Crit is called right before a fatal log exits the process (no-op in normal builds).
+func Crit(msg string) {}
